@@ -10,7 +10,8 @@ cp $wt/seed_out/patch.diff $out/patch.diff; cp $wt/seed_out/notes.md $out/notes.
 cp $wt/$demo $out/$(basename $demo)
 fi
 M=/var/tmp/mut
-cd $M && git checkout -q -- . && git clean -fdq -e target
+[ -d $M ] || git -C /repo worktree add -q --detach $M HEAD   # scratch worktree outside /repo and /verif; remove it when done: git -C /repo worktree remove --force $M
+cd $M && git checkout -q --detach $(git -C /repo rev-parse HEAD) && git checkout -q -- . && git clean -fdq -e target
 git apply $out/patch.diff || { echo "PATCH DOES NOT APPLY"; exit 2; }
 mkdir -p $(dirname $M/$demo); cp $out/$(basename $demo) $M/$demo
 suite=$(cargo test --workspace --no-fail-fast --offline --lib --bins 2>&1 | grep -E "^test result" | awk '{p+=$4; f+=$6} END {print p" passed "f" failed"}')
